@@ -16,15 +16,17 @@
    E g rq full sv = Ok out, and S,I,R and every auxiliary series of out at index 0
    equal the requested state, and S+I(+R) = N, compartments in [0,N] and SIR
    monotonicity hold along the exact solution.  Proved below: row 0 and acceptance
-   for the homogeneous/heterogeneous mean field, compact pairwise and super compact
-   wrappers, refutations (with witnesses replayed by harness/c06.py) where the code
-   misreports or crashes, conservation where it is structural or follows from the
+   for the homogeneous/heterogeneous mean field, compact pairwise, super compact and
+   (explicit sets) SIR effective degree wrappers - the models follow the code after the
+   fix: commits 32a0429..6e8b3e6 of /repo, so the former _refuted theorems are now the
+   positive ones; one refutation is left (SIS heterogeneous pairwise with full data,
+   witness replayed by harness/c06.py); conservation where it is structural or follows from the
    generated right-hand sides.  Not proved (checked numerically by the harness):
    bounds and monotonicity along the curve (flow lift cited, DESIGN 3.7).  The pair
    counts of a request (`req_pairs`) are, for explicit sets, the counts over
    G.edges(); theorem C06_req_pairs_are_ordered_pair_counts (handshake lemma) shows
    they are the order-free numbers of ordered adjacent S-S, S-I, I-I pairs. *)
-From EoNV Require Import Prelude Graph Aux Vec IC Wrappers VecP ICP ICHand ICPair Rhs ICConserve.
+From EoNV Require Import Prelude Graph Aux Vec IC Wrappers VecP ICP ICHand ICPair ICEd ICEbcm Rhs ICConserve.
 
 (* ---------- non-vacuity of the hypotheses ---------- *)
 Example C06_wf_example :
@@ -88,18 +90,12 @@ Theorem row0_SIS_homogeneous_meanfield_from_graph :
 Proof. exact row0_SIS_hmf. Qed.
 Print Assumptions row0_SIS_homogeneous_meanfield_from_graph.
 
-Theorem row0_SIR_homogeneous_meanfield_from_graph_sets :
-  forall g rq sv I0, wf_ugraph g = true -> wf_req g true rq = true -> solver_ok sv -> rq_I rq = Some I0 ->
+Theorem row0_SIR_homogeneous_meanfield_from_graph :
+  forall g rq sv, wf_ugraph g = true -> wf_req g true rq = true -> solver_ok sv ->
   exists S I R, SIR_homogeneous_meanfield_from_graph g rq sv = Ok [(nS, Sc S); (nI, Sc I); (nR, Sc R)] /\
               S 0%nat == reqS_n g rq /\ I 0%nat == reqI_n g rq /\ R 0%nat == reqR_n g rq.
-Proof. exact row0_SIR_hmf_sets. Qed.
-Print Assumptions row0_SIR_homogeneous_meanfield_from_graph_sets.
-(* DESIGN section 5 row 8: rho / no initial condition -> TypeError *)
-Theorem accepts_SIR_homogeneous_meanfield_from_graph_refuted :
-  exists g rq, wf_ugraph g = true /\ wf_req g true rq = true /\
-               forall sv, SIR_homogeneous_meanfield_from_graph g rq sv = Err TypeErr.
-Proof. exact accepts_SIR_hmf_refuted. Qed.
-Print Assumptions accepts_SIR_homogeneous_meanfield_from_graph_refuted.
+Proof. exact row0_SIR_hmf. Qed.
+Print Assumptions row0_SIR_homogeneous_meanfield_from_graph.
 
 (* homogeneous pairwise.  _partial: acceptance is NOT proved - the statement is "if the wrapper returns, row 0 is the
    request"; missing: the guard SS0 + 2 SI0 <= n N never fires on a consistent request in exact arithmetic (it does fire in
@@ -145,16 +141,13 @@ Print Assumptions row0_SIS_heterogeneous_meanfield_from_graph.
 
 Theorem row0_SIR_heterogeneous_meanfield_from_graph :
   forall g rq full sv, wf_ugraph g = true -> wf_req g true rq = true -> solver_ok sv ->
-  exists S I R, SIR_heterogeneous_meanfield_from_graph g rq full sv = Ok [(nS, Sc S); (nI, Sc I); (nR, Sc R)] /\
-    S 0%nat == reqS_n g rq /\ I 0%nat == reqI_n g rq /\ R 0%nat == reqR_n g rq.
+  exists out, SIR_heterogeneous_meanfield_from_graph g rq full sv = Ok out /\
+    (full = false -> exists S I R, out = [(nS, Sc S); (nI, Sc I); (nR, Sc R)] /\
+        S 0%nat == reqS_n g rq /\ I 0%nat == reqI_n g rq /\ R 0%nat == reqR_n g rq) /\
+    (full = true -> exists Sk Ik Rk, out = [(nSk, Ve Sk); (nIk, Ve Ik); (nRk, Ve Rk)] /\
+        veq (Sk 0%nat) (req_Sk g rq) /\ veq (Ik 0%nat) (req_Ik g rq) /\ Rk 0%nat = req_Rk g rq).
 Proof. exact row0_SIR_hetmf. Qed.
 Print Assumptions row0_SIR_heterogeneous_meanfield_from_graph.
-(* DESIGN section 5 row 14: return_full_data is ignored, no Sk series is returned *)
-Theorem row0_SIR_heterogeneous_meanfield_from_graph_full_refuted :
-  exists g rq, wf_ugraph g = true /\ wf_req g true rq = true /\
-    exists out, SIR_heterogeneous_meanfield_from_graph g rq true const_solver = Ok out /\ lookup nSk out = None.
-Proof. exact full_SIR_hetmf_refuted. Qed.
-Print Assumptions row0_SIR_heterogeneous_meanfield_from_graph_full_refuted.
 
 (* pair counts: req_pairs, see C06_req_pairs_are_ordered_pair_counts *)
 Theorem row0_SIS_compact_pairwise_from_graph :
@@ -180,57 +173,65 @@ Qed.
 Print Assumptions row0_SIS_compact_effective_degree_from_graph.
 
 Theorem row0_SIR_compact_pairwise_from_graph :
-  forall g rq sv, wf_ugraph g = true -> wf_req g true rq = true -> solver_ok sv ->
-  exists S I R, SIR_compact_pairwise_from_graph g rq false sv = Ok [(nS, Sc S); (nI, Sc I); (nR, Sc R)] /\
-    S 0%nat == reqS_n g rq /\ I 0%nat == reqI_n g rq /\ R 0%nat == reqR_n g rq.
+  forall g rq full sv, wf_ugraph g = true -> wf_req g true rq = true -> solver_ok sv ->
+  exists out, SIR_compact_pairwise_from_graph g rq full sv = Ok out /\
+    (full = false -> exists S I R, out = [(nS, Sc S); (nI, Sc I); (nR, Sc R)] /\
+        S 0%nat == reqS_n g rq /\ I 0%nat == reqI_n g rq /\ R 0%nat == reqR_n g rq) /\
+    (full = true -> exists Sk I R SS SI, out = [(nSk, Ve Sk); (nI, Sc I); (nR, Sc R); (nSS, Sc SS); (nSI, Sc SI)] /\
+        Sk 0%nat = req_Sk g rq /\ I 0%nat == reqI_n g rq /\ R 0%nat == reqR_n g rq /\
+        SS 0%nat == pSS (req_pairs g rq) /\ SI 0%nat == pSI (req_pairs g rq)).
 Proof. exact row0_SIR_cp. Qed.
 Print Assumptions row0_SIR_compact_pairwise_from_graph.
-(* DESIGN section 5 row 12: SS and SI exchanged with return_full_data *)
-Theorem row0_SIR_compact_pairwise_from_graph_full_refuted :
-  exists g rq, wf_ugraph g = true /\ wf_req g true rq = true /\
-    exists out SS SI, SIR_compact_pairwise_from_graph g rq true const_solver = Ok out /\
-      lookup nSS out = Some (Sc SS) /\ lookup nSI out = Some (Sc SI) /\
-      ~ SS 0%nat == pSS (req_pairs g rq) /\ SS 0%nat == pSI (req_pairs g rq) /\ SI 0%nat == pSS (req_pairs g rq).
-Proof. exact row0_SIR_cp_full_refuted. Qed.
-Print Assumptions row0_SIR_compact_pairwise_from_graph_full_refuted.
 
 Theorem row0_SIS_super_compact_pairwise_from_graph :
   forall g rq full sv, wf_ugraph g = true -> wf_req g false rq = true -> solver_ok sv ->
   exists out S I, SIS_super_compact_pairwise_from_graph g rq full sv = Ok out /\
-    lookup nS out = Some (Sc S) /\ lookup nI out = Some (Sc I) /\ S 0%nat == reqS_n g rq /\ I 0%nat == reqI_n g rq.
+    lookup nS out = Some (Sc S) /\ lookup nI out = Some (Sc I) /\
+    S 0%nat == reqS_n g rq /\ I 0%nat == reqI_n g rq /\
+    (full = true -> exists SS SI II, lookup nSS out = Some (Sc SS) /\ lookup nSI out = Some (Sc SI) /\ lookup nII out = Some (Sc II) /\
+       SS 0%nat == pSS (req_pairs g rq) /\ SI 0%nat == pSI (req_pairs g rq) /\ II 0%nat == pII (req_pairs g rq)).
 Proof. exact row0_SIS_scp. Qed.
 Print Assumptions row0_SIS_super_compact_pairwise_from_graph.
-(* DESIGN section 5 row 11: II0 = rho * sum of degrees on the rho path *)
-Theorem row0_SIS_super_compact_pairwise_from_graph_II_refuted :
-  exists g rq, wf_ugraph g = true /\ wf_req g false rq = true /\
-    exists out II, SIS_super_compact_pairwise_from_graph g rq true const_solver = Ok out /\
-      lookup nII out = Some (Sc II) /\ ~ II 0%nat == pII (req_pairs g rq) /\ II 0%nat == (1 # 4) * degsum g.
-Proof. exact row0_SIS_scp_II_refuted. Qed.
-Print Assumptions row0_SIS_super_compact_pairwise_from_graph_II_refuted.
 
-(* DESIGN section 5 row 10 *)
-Theorem row0_SIR_effective_degree_from_graph_refuted :
-  exists g rq, wf_ugraph g = true /\ wf_req g true rq = true /\
-    exists out S R, SIR_effective_degree_from_graph g rq false const_solver = Ok out /\
-      lookup nS out = Some (Sc S) /\ lookup nR out = Some (Sc R) /\
-      ~ S 0%nat == reqS_n g rq /\ ~ R 0%nat == reqR_n g rq /\ S 0%nat == 2 /\ reqS_n g rq == 1.
-Proof. exact row0_SIR_ed_refuted. Qed.
-Print Assumptions row0_SIR_effective_degree_from_graph_refuted.
+(* effective degree, SIR, explicit sets (initial_recovereds honoured since fix c069c0a).
+   _sets: the rho path is not proved (S(0) = (1-rho)N needs the binomial theorem); FULL statement: as above for every wf_req. *)
+Theorem row0_SIR_effective_degree_from_graph_sets :
+  forall g rq full sv I0, wf_ugraph g = true -> wf_req g true rq = true -> solver_ok sv -> rq_I rq = Some I0 ->
+  exists out S I R, SIR_effective_degree_from_graph g rq full sv = Ok out /\
+    lookup nS out = Some (Sc S) /\ lookup nI out = Some (Sc I) /\ lookup nR out = Some (Sc R) /\
+    S 0%nat == reqS_n g rq /\ I 0%nat == reqI_n g rq /\ R 0%nat == reqR_n g rq.
+Proof. exact row0_SIR_ed_sets. Qed.
+Print Assumptions row0_SIR_effective_degree_from_graph_sets.
 
-(* DESIGN section 5 rows 13 and 12 *)
+(* EBCM_from_graph.  _partial: acceptance is not proved (the wrapper raises ZeroDivisionError when no susceptible node
+   has an edge: phiS0 = SS/SX with SX = 0, outside the generator's domain); FULL statement: exists out, ... = Ok out /\ the same. *)
+Theorem row0_EBCM_from_graph_partial :
+  forall g rq full sv out, wf_ugraph g = true -> wf_req g true rq = true -> solver_ok sv ->
+  EBCM_from_graph g rq full sv = Ok out ->
+  exists S I R, lookup nS out = Some (Sc S) /\ lookup nI out = Some (Sc I) /\ lookup nR out = Some (Sc R) /\
+    S 0%nat == reqS_n g rq /\ I 0%nat == reqI_n g rq /\ R 0%nat == reqR_n g rq /\
+    (full = true -> exists th, lookup nTheta out = Some (Sc th) /\ th 0%nat == 1).
+Proof. exact row0_EBCM_fg. Qed.
+Print Assumptions row0_EBCM_from_graph_partial.
+Example C06_EBCM_returns :
+  exists out, EBCM_from_graph path3 (mkReq (Some [0%N]) (Some [2%N]) None) true const_solver = Ok out.
+Proof. eexists. vm_compute. reflexivity. Qed.
+Print Assumptions C06_EBCM_returns.
+
+(* heterogeneous pairwise, SIS, return_full_data=True: still refused - ValueError from IkIl = NkNl - SkSl - SkIl - SkIl.T *)
 Theorem accepts_SIS_heterogeneous_pairwise_from_graph_full_refuted :
   exists g rq, wf_ugraph g = true /\ wf_req g false rq = true /\
-    forall sv, SIS_heterogeneous_pairwise_from_graph g rq true sv = Err NameErr.
+    forall sv, SIS_heterogeneous_pairwise_from_graph g rq true sv = Err ValueErr.
 Proof. exact accepts_SIS_hetpw_full_refuted. Qed.
 Print Assumptions accepts_SIS_heterogeneous_pairwise_from_graph_full_refuted.
-Theorem row0_SIR_heterogeneous_pairwise_from_graph_full_refuted :
-  exists g rq, wf_ugraph g = true /\ wf_req g true rq = true /\
-    exists kk out SkSl SkIl, get_NkNl_and_IC g rq = Ok kk /\
-      SIR_heterogeneous_pairwise_from_graph g rq true const_solver = Ok out /\
+(* heterogeneous pairwise, SIR, full data: documented order on the former witness (an example, not the general theorem) *)
+Example row0_SIR_heterogeneous_pairwise_from_graph_full_example :
+  exists kk out SkSl SkIl, get_NkNl_and_IC path3 (mkReq (Some [0%N]) None None) = Ok kk /\
+      SIR_heterogeneous_pairwise_from_graph path3 (mkReq (Some [0%N]) None None) true const_solver = Ok out /\
       lookup nSkSl out = Some (Ma SkSl) /\ lookup nSkIl out = Some (Ma SkIl) /\
-      SkSl 0%nat <> kk_SkSl kk /\ SkSl 0%nat = kk_SkIl kk /\ SkIl 0%nat = kk_SkSl kk.
-Proof. exact row0_SIR_hetpw_full_refuted. Qed.
-Print Assumptions row0_SIR_heterogeneous_pairwise_from_graph_full_refuted.
+      SkSl 0%nat = kk_SkSl kk /\ SkIl 0%nat = kk_SkIl kk /\ kk_SkSl kk <> kk_SkIl kk.
+Proof. exact row0_SIR_hetpw_full_example. Qed.
+Print Assumptions row0_SIR_heterogeneous_pairwise_from_graph_full_example.
 
 (* ---------- conservation ---------- *)
 (* structural: whatever the integrator returns *)
@@ -299,3 +300,43 @@ Theorem conserve_SIS_heterogeneous_meanfield :
   forall X t k tau gamma, length X = (2 * k)%nat -> vsum (dSIS_heterogeneous_meanfield X t k tau gamma) == 0.
 Proof. exact conserve_dSIS_heterogeneous_meanfield. Qed.
 Print Assumptions conserve_SIS_heterogeneous_meanfield.
+
+(* more identities over the generated right-hand sides *)
+Theorem conserve_edges_SIS_super_compact_pairwise :
+  forall I SS SI II t tau gamma N k1 k2 k3,
+    let d := dSIS_super_compact_pairwise [I; SS; SI; II] t tau gamma N k1 k2 k3 in
+    vnth 1 d + 2 * vnth 2 d + vnth 3 d == 0.
+Proof. exact conserve_edges_dSIS_super_compact_pairwise. Qed.
+Print Assumptions conserve_edges_SIS_super_compact_pairwise.
+(* sign_: dR = gamma * I with I the returned N - S - R; dS <= 0 on the feasible region (the lift to monotone curves is cited) *)
+Theorem sign_dR_EBCM :
+  forall theta R t N tau gamma (ps psP : Q -> Q) phiS0 phiR0,
+    vnth 1 (dEBCM [theta; R] t N tau gamma ps psP phiS0 phiR0) == gamma * (N - N * ps theta - R).
+Proof. exact dR_EBCM. Qed.
+Print Assumptions sign_dR_EBCM.
+Theorem sign_dR_SIR_super_compact_pairwise :
+  forall theta SS SI R t tau gamma (ps psP psDP : Q -> Q) N,
+    vnth 3 (dSIR_super_compact_pairwise [theta; SS; SI; R] t tau gamma ps psP psDP N) == gamma * (N - N * ps theta - R).
+Proof. exact dR_SIR_super_compact_pairwise. Qed.
+Print Assumptions sign_dR_SIR_super_compact_pairwise.
+Theorem sign_dR_SIR_compact_pairwise :
+  forall Sk SS SI R t N tau gamma,
+    vnth 2 (take_last 3 (dSIR_compact_pairwise (Sk ++ [SS; SI; R]) t N tau gamma)) == gamma * (N - vsum Sk - R).
+Proof. exact dR_SIR_compact_pairwise. Qed.
+Print Assumptions sign_dR_SIR_compact_pairwise.
+Theorem sign_dR_SIR_compact_effective_degree :
+  forall Sk R SI t N tau gamma,
+    vnth 0 (take_last 2 (dSIR_compact_effective_degree (Sk ++ [R; SI]) t N tau gamma)) == gamma * (N - R - vsum Sk).
+Proof. exact dR_SIR_compact_effective_degree. Qed.
+Print Assumptions sign_dR_SIR_compact_effective_degree.
+Theorem sign_dRk_SIR_heterogeneous_meanfield :
+  forall theta Rk t S0 Nk tau gamma,
+    slice_from 1 (dSIR_heterogeneous_meanfield (theta :: Rk) t S0 Nk tau gamma)
+    = smul gamma (vsub (vsub Nk (vmul S0 (spow_arange theta (length Rk)))) Rk).
+Proof. exact dRk_SIR_heterogeneous_meanfield. Qed.
+Print Assumptions sign_dRk_SIR_heterogeneous_meanfield.
+Theorem sign_dS_SIR_homogeneous_meanfield_nonpositive :
+  forall S I t c tau gamma, 0 <= tau -> 0 <= c -> 0 <= S -> 0 <= I ->
+    vnth 0 (dSIR_homogeneous_meanfield [S; I] t c tau gamma) <= 0.
+Proof. exact sign_dS_SIR_homogeneous_meanfield. Qed.
+Print Assumptions sign_dS_SIR_homogeneous_meanfield_nonpositive.
